@@ -1695,13 +1695,34 @@ def _x_det(rng, kind, force):
             'desc': 'mpc.np_det(SecFld(101).array([[1,2],[3,5]]))', 'key': 'x_fixed_det'}
 
 
-@directed('x_zero_size_mix32_64bit', 'int')
+@directed('x_fixed_zero_size_mix32_64bit', 'int')
 def _x_zero_mix(rng, kind, force):
     a = np.zeros((0, 2), dtype=object)
-    return {'inputs': {'a': a}, 'call': lambda mpc, S, X: X['a'] + X['a'], 'ref': lambda P: a,
-            # with option --mix32-64bit arrays are dealt through the list-based random_split: `s[0]` of an empty list
-            'finding_key_crash': 'np_zero_size_mix32_64bit', 'case': {'mix32_64bit': True},
-            'desc': 'mpc.input(SecInt(24).array(np.zeros((0, 2)))) with option --mix32-64bit', 'key': 'x_zero_mix'}
+    return {'inputs': {'a': a}, 'call': lambda mpc, S, X: X['a'] * X['a'] + X['a'], 'ref': lambda P: a,
+            # repaired by fe2a0ec: with option --mix32-64bit arrays are dealt / opened through the list-based random_split /
+            # recombine, which read the type of the first element
+            'case': {'mix32_64bit': True},
+            'desc': 'mpc.input(SecInt(24).array(np.zeros((0, 2)))), a * a + a with option --mix32-64bit', 'key': 'x_fixed_zero_mix'}
+
+
+@directed('x_fixed_pow_int_base_secint_array', 'int')
+def _x_pow_secint(rng, kind, force):
+    b = np.array([0, 1, 5], dtype=object)
+    return {'inputs': {'b': b}, 'call': lambda mpc, S, X: 2 ** X['b'], 'ref': lambda P: np.array([1, 2, 32], dtype=object),
+            # repaired by 30a9e36: the non-senders declared their placeholder with integral=True (TypeError for secint arrays)
+            'desc': '2 ** secint.array([0, 1, 5])', 'key': 'x_fixed_pow_secint'}
+
+
+@directed('x_fixed_np_trunc_fxp_negative', 'fxp')
+def _x_trunc_neg(rng, kind, force):
+    a = np.array([1.5, -2.25, -100.5, -0.0078125])
+    b = np.array([0.5, 0.5, 100.5, 0.5])
+    return {'inputs': {'a': a, 'b': b}, 'call': lambda mpc, S, X: X['a'] * X['b'], 'ref': lambda P: a * b, 'tol': 1.01 * ULP,
+            # repaired by 3c924f8: np_trunc used l instead of l + f for fixed-point arrays (offset and mask too small by 2^f:
+            # negative double-scaled products opened as negative numbers)
+            'case': {'sec_param': 8},
+            'desc': 'secfxp.array([1.5, -2.25, -100.5, -2^-7]) * secfxp.array([.5, .5, 100.5, .5]) with sec_param 8',
+            'key': 'x_fixed_trunc_neg'}
 
 
 @directed('x_np_unit_vector_secfld', 'f101')
